@@ -1,9 +1,11 @@
 import Srtla.Lemmas.ForwardFrame
+import Srtla.Lemmas.Housekeeping
 /-!
 # `handle_housekeeping` seen from the batch queues (C01)
 
 Housekeeping never moves a queued datagram: every queue is left untouched, or discarded as part of
-the reconnect reset of a timed-out link (`reset_for_reconnect`).
+the reconnect reset of a link that — in the state the tick started with — was timed out AND due for a
+reconnect attempt (`reset_for_reconnect`, or `mark_for_recovery` when the socket re-creation fails).
 -/
 namespace Srtla.Sys
 open Srtla Srtla.Gen Srtla.Conn Srtla.Select Srtla.Rtt Srtla.Link Scalar
@@ -12,15 +14,36 @@ set_option linter.unusedSectionVars false
 
 variable {F : Type} [Scalar F]
 
-/-- The link was reset by a housekeeping reconnect attempt at `now`. -/
-def HkReset (now : Nat) (l' : FLink F) : Prop :=
+/-- The link was reset by a housekeeping reconnect attempt at `now`: the CAUSE (the record the tick
+started with, `l`, was timed out at `now` and `should_attempt_reconnect(now)` held) and the effect (attempt
+stamped, not connected, phase registering). -/
+def HkReset (now : Nat) (l l' : FLink F) : Prop :=
+  l.isTimedOut now = true ∧ l.shouldAttemptReconnect now = true ∧
   l'.lastAttemptMs = now ∧ l'.core.connected = false ∧ l'.core.phase = .registering
 
 /-- One link across a housekeeping tick. -/
 def HkRel (now : Nat) (l l' : FLink F) : Prop :=
   l'.core.connId = l.core.connId ∧
   ((l'.queue = l.queue ∧ l'.probeCounter = l.probeCounter) ∨
-   (l'.queue = [] ∧ l'.probeCounter = 0 ∧ HkReset now l'))
+   (l'.queue = [] ∧ l'.probeCounter = 0 ∧ HkReset now l l'))
+
+/-- The record the per-link loop of housekeeping sees: the record the tick started with, or that record
+with the start-up grace window re-armed (stage 1: probing completion resets the chosen link's grace). -/
+def GraceSame (now : Nat) (l l' : FLink F) : Prop :=
+  l' = l ∨ l' = { l with graceDeadline := now + Conn.STARTUP_GRACE_MS }
+
+/-- An attempt the loop makes on the grace-re-armed record is an attempt on the record the tick started
+with: a never-established link inside its (re-armed) grace is not attempted at all, and for an
+established link neither `is_timed_out` nor `should_attempt_reconnect` reads the grace deadline. -/
+theorem attempt_of_grace (l : FLink F) (now : Nat)
+    (hto : ({ l with graceDeadline := now + Conn.STARTUP_GRACE_MS } : FLink F).isTimedOut now = true)
+    (hsa : ({ l with graceDeadline := now + Conn.STARTUP_GRACE_MS } : FLink F).shouldAttemptReconnect now = true) :
+    l.isTimedOut now = true ∧ l.shouldAttemptReconnect now = true := by
+  by_cases he : l.established = 0
+  · rw [Hk.shouldAttempt_in_grace l now he] at hsa; cases hsa
+  · rw [Hk.isTimedOut_grace l _ now he] at hto
+    rw [Hk.shouldAttempt_grace l _ now he] at hsa
+    exact ⟨hto, hsa⟩
 
 /-- Everything `HkRel` looks at. -/
 def hview (l : FLink F) : (Nat × List QItem × Nat) × Nat × Bool × Phase :=
@@ -41,13 +64,15 @@ theorem HkRel.same_right {now : Nat} {l l' l'' : FLink F} (h : HkRel now l l') (
   · exact ⟨by rw [e1, h1], Or.inr ⟨by rw [e2, h.1], by rw [e3, h.2.1], by
       unfold HkReset at *; rw [e4, e5, e6]; exact h.2.2⟩⟩
 
-theorem HkRel.same_left {now : Nat} {l l' l'' : FLink F} (h2 : Same l l') (h : HkRel now l' l'') :
+theorem HkRel.grace_left {now : Nat} {l l' l'' : FLink F} (h2 : GraceSame now l l') (h : HkRel now l' l'') :
     HkRel now l l'' := by
-  simp only [Same, hview, dview, Prod.mk.injEq] at h2
-  obtain ⟨⟨e1, e2, e3⟩, -⟩ := h2
-  obtain ⟨h1, h | h⟩ := h
-  · exact ⟨by rw [h1, e1], Or.inl ⟨by rw [h.1, e2], by rw [h.2, e3]⟩⟩
-  · exact ⟨by rw [h1, e1], Or.inr h⟩
+  rcases h2 with rfl | rfl
+  · exact h
+  · obtain ⟨h1, h | h⟩ := h
+    · exact ⟨h1, Or.inl h⟩
+    · obtain ⟨a, b, hto, hsa, c⟩ := h
+      obtain ⟨hto', hsa'⟩ := attempt_of_grace l now hto hsa
+      exact ⟨h1, Or.inr ⟨a, b, hto', hsa', c⟩⟩
 
 theorem Pw.comp {R1 R2 R3 : FLink F → FLink F → Prop} {a b c : List (FLink F)}
     (h1 : Pw R1 a b) (h2 : Pw R2 b c) (h : ∀ x y z, R1 x y → R2 y z → R3 x z) : Pw R3 a c := by
@@ -112,10 +137,11 @@ theorem HkRel.of_dview {now : Nat} {l l' : FLink F} (h : dview l' = dview l) : H
   simp only [dview, Prod.mk.injEq] at h
   exact ⟨h.1, Or.inl ⟨h.2.1, h.2.2⟩⟩
 
-theorem hk_reset_rel (now : Nat) (l l' : FLink F) (hq : l'.queue = []) (hp : l'.probeCounter = 0)
+theorem hk_reset_rel (now : Nat) (l l' : FLink F) (hto : l.isTimedOut now = true)
+    (hsa : l.shouldAttemptReconnect now = true) (hq : l'.queue = []) (hp : l'.probeCounter = 0)
     (hc : l'.core.connId = l.core.connId) (ha : l'.lastAttemptMs = now) (hcn : l'.core.connected = false)
     (hph : l'.core.phase = .registering) : HkRel now l l' :=
-  ⟨hc, Or.inr ⟨hq, hp, ha, hcn, hph⟩⟩
+  ⟨hc, Or.inr ⟨hq, hp, hto, hsa, ha, hcn, hph⟩⟩
 
 theorem recordAttempt_connId (l : FLink F) (now : Nat) : (l.recordAttempt now).core.connId = l.core.connId := by
   unfold FLink.recordAttempt; split <;> rfl
@@ -136,19 +162,21 @@ theorem hkLinksGo_pw (classic : Bool) (now : Nat) :
     have hc := recordAttempt_connId l now
     have ha := recordAttempt_lastAttempt l now
     split
-    · split
+    · rename_i hto
+      split
       · -- reconnect: `reset_for_reconnect`, or `mark_for_recovery` when the socket re-creation fails
-        cases hf : fb.contains l.core.connId <;> simp only [hf, Bool.false_eq_true, if_false, if_true]
+        rename_i hsa
+        cases hf : fb.contains l.core.connId <;> simp only [Bool.false_eq_true, if_false, if_true]
         all_goals
           split
           · split
             all_goals
               first
-                | exact .cons (hk_reset_rel now l _ rfl rfl hc rfl rfl rfl) (ih _ _ _)
-                | exact .cons (hk_reset_rel now l _ rfl rfl hc ha rfl rfl) (ih _ _ _)
+                | exact .cons (hk_reset_rel now l _ hto hsa rfl rfl hc rfl rfl rfl) (ih _ _ _)
+                | exact .cons (hk_reset_rel now l _ hto hsa rfl rfl hc ha rfl rfl) (ih _ _ _)
           · first
-              | exact .cons (hk_reset_rel now l _ rfl rfl hc rfl rfl rfl) (ih _ _ _)
-              | exact .cons (hk_reset_rel now l _ rfl rfl hc ha rfl rfl) (ih _ _ _)
+              | exact .cons (hk_reset_rel now l _ hto hsa rfl rfl hc rfl rfl rfl) (ih _ _ _)
+              | exact .cons (hk_reset_rel now l _ hto hsa rfl rfl hc ha rfl rfl) (ih _ _ _)
       · exact .cons (HkRel.of_dview rfl) (ih _ _ _)
     · split
       rename_i l1 w1 h1
@@ -178,20 +206,21 @@ theorem hk_links (s : Sys F) (now : Nat) :
   unfold handleHousekeeping
   dsimp only
   generalize hA : (if Reg.isProbing (Reg.clearPendingIfTimedOut s.reg now).fst = true then _ else _) = A
-  have hA2 : Pw Same s.links A.2 := by
+  have hA2 : Pw (GraceSame now) s.links A.2 := by
     rw [← hA]
     split
     · split
       · split
-        · exact Pw.of_mapIdx (R := Same) _ (fun j l => by unfold Same; split <;> rfl) _
-        · exact Pw.refl (R := Same) (fun _ => rfl) _
-      · exact Pw.refl (R := Same) (fun _ => rfl) _
-    · exact Pw.refl (R := Same) (fun _ => rfl) _
+        · exact Pw.of_mapIdx (R := GraceSame now) _
+            (fun j l => by split; exact Or.inr rfl; exact Or.inl rfl) _
+        · exact Pw.refl (R := GraceSame now) (fun _ => Or.inl rfl) _
+      · exact Pw.refl (R := GraceSame now) (fun _ => Or.inl rfl) _
+    · exact Pw.refl (R := GraceSame now) (fun _ => Or.inl rfl) _
   clear hA
   generalize hG : hkLinksGo s.cfg.classic now A.2 0 A.1 s.failBind = G
   have hG2 : Pw (HkRel now) A.2 G.1 := by rw [← hG]; exact hkLinksGo_pw _ _ _ _ _ _
   clear hG
-  have h02 : Pw (HkRel now) s.links G.1 := hA2.comp hG2 (fun _ _ _ => HkRel.same_left)
+  have h02 : Pw (HkRel now) s.links G.1 := hA2.comp hG2 (fun _ _ _ => HkRel.grace_left)
   generalize (Reg.regDriverPendingSends _ now).2 = sends
   have fin : ∀ X, Pw Same G.1 X → Pw (HkRel now) s.links X :=
     fun X h => h02.comp h (fun _ _ _ => HkRel.same_right)
